@@ -99,6 +99,7 @@ def format_rules(an: Analysis, rep):
     rep.run(r102_siblings, an, rep, expand)
     rep.run(r102_order, an, rep, expand)
     rep.run(r105, an, rep)
+    rep.run(r106, an, rep)
 
 
 def _merge_predicates(collapse: FunctionInfo):
@@ -514,3 +515,42 @@ def r105(an, rep):
                 f"`{v}` starts at a constant and is only ever moved by `+= <line delta of an entry>` ({n_upd} update site(s))" if not bad else
                 f"`{norm_src(bad[0])}` inside the table loop sets the running line by something other than adding an entry's delta: CPython keeps counting from the "
                 f"previous line (an entry without a line does not move it), so every later offset gets a line CPython does not assign")
+
+
+def r106(an, rep):
+    """The walk over a co_lnotab table ends only when every entry has been consumed: entries that lie at or beyond the end of the code
+    (the peephole pass removes unreachable statements and leaves their entries there) must reach the mapping, or re-encoding drops them."""
+    rep.rule("R10.6", "the lnotab walk cannot end while table entries remain", 1)
+    st = find_stages(an)
+    f = st["to_map"]
+    items = f.params[0]
+    # cursor: the name used as the index in items[<cursor>]
+    cursors = {n.slice.id for n in ast.walk(f.node) if isinstance(n, ast.Subscript) and isinstance(n.value, ast.Name) and n.value.id == items and isinstance(n.slice, ast.Name)}
+    if not cursors:
+        raise AnalysisError(f"{f.qual}: no cursor into `{items}` found: how the lnotab table is walked is not recognised")
+    loops = [lp for lp in ast.walk(f.node) if isinstance(lp, (ast.While, ast.For)) and any(isinstance(n, ast.Subscript) and isinstance(n.value, ast.Name) and n.value.id == items
+                                                                                       and isinstance(n.slice, ast.Name) for n in ast.walk(lp))]
+    pm = parent_map(f.module)
+    outer = [lp for lp in loops if not any(lp is not o and any(x is lp for x in ast.walk(o)) for o in loops)]
+    for lp in outer:
+        if isinstance(lp, ast.For):
+            raise AnalysisError(f"{f.qual}: the table is walked by `for {norm_src(lp.target)} in {norm_src(lp.iter)[:50]}`: whether its bound covers every entry is arithmetic over the table, not decided")
+        disj = lp.test.values if isinstance(lp.test, ast.BoolOp) and isinstance(lp.test.op, ast.Or) else [lp.test]
+
+        def remaining(t):
+            return (isinstance(t, ast.Compare) and len(t.ops) == 1 and isinstance(t.ops[0], ast.Lt) and isinstance(t.left, ast.Name) and t.left.id in cursors
+                    and isinstance(t.comparators[0], ast.Call) and isinstance(t.comparators[0].func, ast.Name) and t.comparators[0].func.id == "len"
+                    and isinstance(t.comparators[0].args[0], ast.Name) and t.comparators[0].args[0].id == items) or \
+                   (isinstance(t, ast.Compare) and len(t.ops) == 1 and isinstance(t.ops[0], ast.NotEq) and isinstance(t.left, ast.Name) and t.left.id in cursors
+                    and isinstance(t.comparators[0], ast.Call) and getattr(t.comparators[0].func, "id", "") == "len")
+        ok = any(remaining(t) for t in disj)
+        if not ok:
+            # entries handled after the loop?
+            body = pm[id(lp)].body if hasattr(pm.get(id(lp)), "body") else []
+            after = body[body.index(lp) + 1:] if lp in body else []
+            if any(isinstance(x, ast.Name) and x.id in cursors for s_ in after for x in ast.walk(s_)):
+                raise AnalysisError(f"{f.qual}: entries left after the walk are handled after the loop: not decided")
+        rep.add("R10.6", f"{f.qual}::walk continues while entries remain", ok, loc(f.module, lp),
+                f"`{norm_src(lp.test)}` keeps the walk going while `{sorted(cursors)[0]} < len({items})`: on exit every entry has been consumed" if ok else
+                f"the walk ends when `{norm_src(lp.test)}` is false, whether or not entries remain: entries at or beyond the end of the code (left by the peephole pass for removed "
+                f"statements, e.g. `def f(): return 1; x = 2`) never reach the mapping and are missing from the re-encoded table")
